@@ -432,6 +432,39 @@ pub fn execute(sc: &RenderScenario, stats: &mut Stats) -> Outcome {
                     Ok(r) => {
                         if fw.stats.fired {
                             stats.inc(&format!("fault_fired_{:?}", kind));
+                            // reach probes: what kind of template the fault landed in
+                            let src: &str = match target {
+                                Target::Template { name } | Target::Block { name, .. } => sc.templates.iter().find(|(n, _)| n == name).map(|(_, s)| s.as_str()).unwrap_or(""),
+                                Target::Str { source, .. } => source,
+                                Target::Component { .. } => "component",
+                            };
+                            if src.contains("include ") {
+                                stats.inc("probe_fault_in_template_with_include");
+                            }
+                            if src.contains("extends ") {
+                                stats.inc("probe_fault_in_child_template");
+                            }
+                            if src.contains("super()") {
+                                stats.inc("probe_fault_in_template_with_super");
+                            }
+                            if src.contains(" set ") && src.contains("endset") || src.contains("endfilter") {
+                                stats.inc("probe_fault_in_template_with_capture");
+                            }
+                            if src.contains("/>") || src.contains("</") || src == "component" {
+                                stats.inc("probe_fault_in_template_with_component_call");
+                            }
+                            if matches!(target, Target::Block { .. }) {
+                                stats.inc("probe_fault_in_render_block_to");
+                            }
+                            if matches!(target, Target::Str { .. }) {
+                                stats.inc("probe_fault_in_render_str_to");
+                            }
+                            if plan.transient.is_some() {
+                                stats.inc("probe_permanent_fault_after_transient_noise");
+                            }
+                            if !rf.ok {
+                                stats.inc("probe_fault_before_a_render_error");
+                            }
                             stats.add("writes_after_fault", fw.stats.calls_after_fault as u64);
                             let inside = !rf.bytes.is_empty() && fw.accepted.len() < rf.bytes.len();
                             if rf.calls >= 2 && inside {
